@@ -246,6 +246,7 @@ func (vm *Thread) CallGeneratorNext(generator *Generator) (value.Value, value.Va
 		*vm.spAdd(i) = *vm.stackAdd(baseStack, i)
 	}
 	vm.spIncrementBy(uintptr(stackLen))
+	vm.reopenUpvalues(generator)
 
 	vm.run()
 
@@ -265,8 +266,56 @@ func (vm *Thread) CallGeneratorNext(generator *Generator) (value.Value, value.Va
 		return value.Undefined, vm.popGet()
 	}
 
+	vm.suspendUpvalues(generator)
 	vm.restoreLastFrame()
 	return vm.popGet(), value.Undefined
+}
+
+// Remember the open upvalues of the current frame in the generator that is being suspended.
+// The frame is about to be moved off the stack which closes them,
+// when the generator is resumed its locals live in other slots.
+func (vm *Thread) suspendUpvalues(generator *Generator) {
+	for upvalue := vm.openUpvalueHead; upvalue != nil; upvalue = upvalue.next {
+		slot := uintptr(unsafe.Pointer(upvalue.slot))
+		if slot < vm.fp {
+			break
+		}
+		generator.suspendedUpvalues = append(
+			generator.suspendedUpvalues,
+			suspendedUpvalue{
+				upvalue:    upvalue,
+				localIndex: vm.stackOffsetFromToRaw(vm.fp, slot),
+			},
+		)
+	}
+}
+
+// Make the upvalues that were open when the generator got suspended
+// point to the slots its locals have been copied to, so the closures
+// keep sharing the variables with the resumed body.
+func (vm *Thread) reopenUpvalues(generator *Generator) {
+	suspended := generator.suspendedUpvalues
+	if len(suspended) == 0 {
+		return
+	}
+	generator.suspendedUpvalues = nil
+
+	// the upvalues are ordered from the highest slot to the lowest
+	// and all of them lie above every open upvalue of this thread
+	for i, s := range suspended {
+		upvalue := s.upvalue
+		slot := vm.fpAdd(s.localIndex)
+		// a closure may have changed the variable in the meantime
+		*slot = upvalue.closed
+		upvalue.slot = slot
+		upvalue.closed = value.Undefined
+		if i+1 < len(suspended) {
+			upvalue.next = suspended[i+1].upvalue
+		} else {
+			upvalue.next = vm.openUpvalueHead
+		}
+	}
+	vm.openUpvalueHead = suspended[0].upvalue
 }
 
 // Call a callable value from Go code, preserving the state of the VM.
